@@ -23,6 +23,10 @@ pub enum Case {
     /// serialised points exchanged between the engines, optionally corrupted:
     /// which = 0..4 (G1 compressed, G1 uncompressed, G2 compressed, G2 uncompressed)
     Exchange { k: Num, which: u8, corrupt: Option<(u8, u16, u8)> },
+    /// serialisation of an arbitrary coordinate pair (x, y) placed in a G1 point without checks:
+    /// the sign flag of the encoding is decided by comparing y with -y, so y is drawn around
+    /// p/2 with two limbs moved in opposite directions
+    SignFlag { x: Num, y: Num },
 }
 
 fn ser<T: CanonicalSerialize>(x: &T, compressed: bool) -> Vec<u8> {
@@ -210,6 +214,36 @@ fn corrupt(bytes: &mut Vec<u8>, c: (u8, u16, u8)) -> &'static str {
     }
 }
 
+fn sign_flag_case(x: &N, y: &N, ctx: &mut Ctx) -> Result<(), Failure> {
+    use crate::refmodel::P;
+    type G1o = <Ours as Pairing>::G1Affine;
+    type G1t = <Theirs as Pairing>::G1Affine;
+    let (x, y) = (x % &P.m, y % &P.m);
+    let to48 = |v: &N| {
+        let mut b = v.to_bytes_le();
+        b.resize(48, 0);
+        b
+    };
+    let (xo, yo) = (decaf377::Fp::from_le_bytes_mod_order(&to48(&x)), decaf377::Fp::from_le_bytes_mod_order(&to48(&y)));
+    let (xt, yt) = (ark_bls12_377::Fq::from_le_bytes_mod_order(&to48(&x)), ark_bls12_377::Fq::from_le_bytes_mod_order(&to48(&y)));
+    let po = G1o::new_unchecked(xo, yo);
+    let pt = G1t::new_unchecked(xt, yt);
+    ctx.class("sign-flag");
+    let neg = &y > &((&P.m - 1u32) >> 1);
+    ctx.class(if neg { "sign-flag:y>p/2" } else { "sign-flag:y<=p/2" });
+    for compressed in [true, false] {
+        ctx.sub_eval();
+        let (a, b) = (ser(&po, compressed), ser(&pt, compressed));
+        if a != b {
+            ctx.report(
+                format!("C16|sign-flag:{}", if compressed { "compressed" } else { "uncompressed" }),
+                format!("the unchecked point (x={x:x}, y={y:x}) serialises to {} in decaf377::Bls12_377 and to {} in the reference engine", hex::encode(&a), hex::encode(&b)),
+            )?;
+        }
+    }
+    Ok(())
+}
+
 impl Property for C16 {
     type Case = Case;
     const ID: &'static str = "C16";
@@ -225,12 +259,19 @@ impl Property for C16 {
         vec!["the reference crate ark-bls12-377 0.4 (and ark-ec's generic BLS12 engine used by both) is trusted".into()]
     }
     fn cases(&self, tier: Tier) -> u64 {
-        tier.pick(3_000, 120_000)
+        tier.pick(6_000, 200_000)
     }
     fn strategy(&self, _tier: Tier) -> BoxedStrategy<Case> {
         prop_oneof![
             1 => (gen::fq(), gen::fq(), gen::fq()).prop_map(|(a, a2, b)| Case::Pair { a, a2, b }),
             3 => (gen::fq(), 0u8..4, proptest::option::weighted(0.7, (0u8..9, any::<u16>(), any::<u8>()))).prop_map(|(k, which, corrupt)| Case::Exchange { k, which, corrupt }),
+            2 => (gen::fe(&crate::refmodel::P.m), 0u32..6, 0u32..6, prop_oneof![Just(0u64), Just(1u64), any::<u64>()], prop_oneof![Just(0u64), Just(1u64), any::<u64>()], any::<bool>()).prop_map(|(x, i, j, u, v, hi)| {
+                let p = &crate::refmodel::P.m;
+                let half = if hi { (p + 1u32) >> 1 } else { (p - 1u32) >> 1 };
+                let y = (half + (N::from(u) << (64 * i as u64)) + p - ((N::from(v) << (64 * j as u64)) % p)) % p;
+                Case::SignFlag { x, y: Num(y) }
+            }),
+            1 => (gen::fe(&crate::refmodel::P.m), gen::fe(&crate::refmodel::P.m)).prop_map(|(x, y)| Case::SignFlag { x, y }),
         ]
         .boxed()
     }
@@ -278,6 +319,10 @@ impl Property for C16 {
                 }
                 Ok(())
             }
+            Case::SignFlag { x, y } => {
+                ctx.nontrivial();
+                sign_flag_case(&x.0, &y.0, ctx)
+            }
             Case::Exchange { k, which, corrupt: c } => {
                 let k = &k.0 % &Q.m;
                 let names = ["G1/compressed", "G1/uncompressed", "G2/compressed", "G2/uncompressed"];
@@ -317,6 +362,6 @@ impl Property for C16 {
         }
     }
     fn required_classes(&self, _tier: Tier) -> Vec<String> {
-        vec!["pair".into(), "exchange:accepted".into(), "exchange:rejected".into(), "exchange:G1/compressed:valid".into(), "exchange:G2/uncompressed:flip-top-flag".into()]
+        vec!["pair".into(), "sign-flag:y>p/2".into(), "sign-flag:y<=p/2".into(), "exchange:accepted".into(), "exchange:rejected".into(), "exchange:G1/compressed:valid".into(), "exchange:G2/uncompressed:flip-top-flag".into()]
     }
 }
